@@ -451,6 +451,39 @@ func genDoubleEnc(g *vh.Gen) string {
 	return "<" + tag + " " + attr + "=" + q + style + q + extra + ">x</" + tag + ">"
 }
 
+// genSplice: markup that only becomes a tag when a token between its pieces disappears: a stray
+// "<" that opens nothing, then a comment / bogus comment / processing instruction / CDATA / empty
+// end tag, then text that reads like the inside of a start tag (with a disallowed style
+// declaration, an event handler, a script URL, a forbidden element). Also the same tag-like text
+// cut at a random place by such a token. Any pass that drops or rewrites the middle token joins
+// the pieces; the final output must still hold no such element.
+func genSplice(g *vh.Gen) string {
+	mid := g.Pick("<!-- -->", "<!---->", "<!--x-->", "<!--[if mso]>x<![endif]-->", "<?xml version=\"1.0\"?>", "<?>", "<!>", "<!x>", "<![CDATA[x]]>",
+		"<!DOCTYPE html>", "</>", "</ >", "<!-->", "<!--->", "<!-- --!>", "<!--<-->", "<!-- > -->")
+	inner := g.Pick(
+		"div style=\"position:fixed;top:0\">x</div>",
+		"p style='position:fixed;left:0;z-index:9'>x</p>",
+		"span STYLE=behavior:url(x)>x</span>",
+		"td style=\""+g.Pick(badProps...)+":"+g.Pick("0", "fixed", "url(x)")+"\">x</td>",
+		"img src=x onerror=alert(1)>",
+		"a href=\"javascript:alert(1)\">x</a>",
+		"script>alert(1)</script>",
+		"iframe src=//evil/></iframe>",
+		"b onclick=x style=\"top:0\">x</b>",
+		"center style=\"color:red;position:fixed\">x</center>")
+	opener := g.Pick("<", "<", "<<", "x<", "< <", "&lt;<", "<\x00<", "1 < 2 <")
+	switch g.Intn(5) {
+	case 0, 1, 2:
+		return g.Pick("", "a ", "<p>") + opener + mid + inner
+	case 3: // the token cuts the tag-like text somewhere
+		t := "<" + inner
+		i := 1 + g.Intn(len(t)-1)
+		return t[:i] + mid + t[i:]
+	default: // two tokens in a row, or the token after the name
+		return opener + mid + g.Pick("", mid, " ") + inner + g.Pick("", mid+"<p style=\"top:0\">y</p>")
+	}
+}
+
 // genLong builds a document holding ONE very long token of about n bytes (kind selects which
 // token kind). Total size never mattered to the sanitiser; a single huge token exercises the
 // tokenizer's buffering (sanitising must never fail: C18's last clause). nl > 0 inserts a line
@@ -569,6 +602,8 @@ func gen(g *vh.Gen) {
 			s = mutate(g, genHTML(g), "<>\"'=/ &;\x00")
 		case i%10 >= 6:
 			s = genStyled(g)
+		case i%10 == 5 && i%20 == 5:
+			s = genSplice(g)
 		case i%10 == 5:
 			s = genDoubleEnc(g)
 		case i%10 >= 3:
@@ -605,6 +640,8 @@ func gen(g *vh.Gen) {
 			h = genHTML(g)
 		case 2:
 			h = genDoubleEnc(g)
+		case 3:
+			h = genSplice(g)
 		default:
 			h = genStyled(g)
 		}
